@@ -8,6 +8,7 @@ package main
 import (
 	"errors"
 	"fmt"
+	"runtime"
 
 	gocvss20 "github.com/pandatix/go-cvss/20"
 	gocvss30 "github.com/pandatix/go-cvss/30"
@@ -317,3 +318,19 @@ var (
 	rawSink31 *gocvss31.CVSS31
 	rawSink40 *gocvss40.CVSS40
 )
+
+// Every error the library returns is also RENDERED (Error() is an exported method: a message that
+// sorts or rewrites shared state while being formatted changes later results - C14).
+func init() {
+	for _, v := range versions {
+		inner := v.ErrKind
+		v.ErrKind = func(err error) ErrK {
+			if err != nil {
+				if p, msg := safely(func() { runtime.KeepAlive(err.Error()) }); p {
+					return ErrK{"other", "Error() panicked: " + msg}
+				}
+			}
+			return inner(err)
+		}
+	}
+}
